@@ -452,17 +452,28 @@ def all_targets():
 
 # ---------------------------------------------------------------- running one exchange
 
-def run_one(fw, app, target, shape, origin, origin_name='Origin'):
+def fields(value):
+    """A header given as a tuple/list is sent as that many separate header field lines."""
+    if value is None:
+        return []
+    return list(value) if isinstance(value, (tuple, list)) else [value]
+
+
+def fold(value):
+    """RFC 9110 5.3: several field lines with one name ARE the single field whose value is the comma-joined list
+    (that is also what a WSGI server puts into HTTP_<NAME>)."""
+    return ','.join(value) if isinstance(value, (tuple, list)) else value
+
+
+def run_one(fw, app, target, shape, origin, origin_name='Origin', env_extra=None):
     method, acrm, acrh = shape
-    headers = []
-    if origin is not None:
-        headers.append((origin_name, origin))
-    if acrm is not None:
-        headers.append(('Access-Control-Request-Method', acrm))
-    if acrh is not None:
-        headers.append(('Access-Control-Request-Headers', acrh))
+    headers = [(origin_name, v) for v in fields(origin)]
+    headers += [('Access-Control-Request-Method', v) for v in fields(acrm)]
+    headers += [('Access-Control-Request-Headers', v) for v in fields(acrh)]
     if fw == 'wsgi':
         env = W.make_environ(method, target.path, target.query, headers=headers)
+        if env_extra:
+            env.update(env_extra)       # gateway / process variables that are NOT request headers (no HTTP_ prefix)
         res = W.run_wsgi(app, env)
         hs = [(k.lower(), v) for k, v in res.headers]
         bad = list(res.problems)
@@ -486,14 +497,15 @@ class Bench:
         self.base_apps = {}
         self.base_cache = {}
 
-    def base(self, fw, kind, target, shape, origin, origin_name):
-        key = (fw, kind, target.path, target.query, shape, origin, origin_name)
+    def base(self, fw, kind, target, shape, origin, origin_name, env_extra=None):
+        key = (fw, kind, target.path, target.query, shape, origin, origin_name,
+               tuple(sorted(env_extra.items())) if env_extra else None)
         hit = self.base_cache.get(key)
         if hit is None:
             app = self.base_apps.get((fw, kind))
             if app is None:
                 app = self.base_apps[(fw, kind)] = build_app(fw, kind, None, self.static_dir)
-            hit = run_one(fw, app, target, shape, origin, origin_name)
+            hit = run_one(fw, app, target, shape, origin, origin_name, env_extra)
             if len(self.base_cache) < 400000:
                 self.base_cache[key] = hit
         return hit
@@ -505,18 +517,24 @@ def is_known_acac(kind, detail):
 
 
 def check_exchange(rec, bench, fw, ctx, app, cfg, policy, target, shape, origin, origin_name='Origin', plan_spec=None,
-                   base_k=None, extra=None, got_pre=None):
-    method, acrm, acrh = shape
+                   base_k=None, extra=None, got_pre=None, env_extra=None):
+    # what is sent (possibly repeated field lines, plus non-header environ variables) ...
+    raw_shape, raw_origin = shape, origin
+    # ... and what the request therefore carries, as the oracle reads it
+    origin = fold(origin)
+    method, acrm, acrh = shape[0], fold(shape[1]), fold(shape[2])
     success = target.success(method)
     live = True
     if ctx == 'after-dep' and (target.name == 'deny' or target.name.startswith('qgate')):
         # dependent middleware: a component whose process_request never ran has no process_response (documented)
         live = False
     ex = M.Exchange(origin, method, acrm, acrh, success, live=live, allow_expected=target.allow_expected)
-    base, base_bad = bench.base(fw, base_k or base_kind(ctx), target, shape, origin, origin_name)
-    got, got_bad = got_pre or run_one(fw, app, target, shape, origin, origin_name)
+    base, base_bad = bench.base(fw, base_k or base_kind(ctx), target, raw_shape, raw_origin, origin_name, env_extra)
+    got, got_bad = got_pre or run_one(fw, app, target, raw_shape, raw_origin, origin_name, env_extra)
     witness = {'fw': fw, 'ctx': ctx, 'config': cfg, 'target': target.name, 'path': target.path, 'query': target.query,
-               'shape': list(shape), 'origin': origin, 'origin_name': origin_name, 'plan': plan_spec}
+               'shape': list(raw_shape), 'origin': raw_origin, 'origin_name': origin_name, 'plan': plan_spec}
+    if env_extra:
+        witness['env_extra'] = env_extra
     if extra:
         witness.update(extra)
     rec.count('fw.' + fw)
@@ -574,7 +592,8 @@ def check_exchange(rec, bench, fw, ctx, app, cfg, policy, target, shape, origin,
                                  base_status=base[0], got_status=got[0],
                                  got_ac=M.ac_items(got[1]), base_ac=M.ac_items(base[1])), known_key=known)
     nontrivial = origin is not None
-    rec.case((fw, ctx, repr(cfg), target.name, shape, origin) if nontrivial else None)
+    rec.case((fw, ctx, repr(cfg), target.name, raw_shape, raw_origin, env_extra and sorted(env_extra.items()))
+             if nontrivial or env_extra else None)
     return findings
 
 
@@ -1143,8 +1162,79 @@ def history_narrow(rec, bench, desc):
         mini_table(rec, bench, apps, 'history:narrow', 'none', list(cfg), desc, i, refused=refused)
 
 
+# rare-but-legal framing of the three request headers the policy reads
+FRAMING_CONFIGS = [
+    [('str', '*'), ('none', None), ('none', None)],
+    [('str', '*'), ('str', '*'), ('str', 'X-One')],
+    [('str', OA), ('str', OA), ('none', None)],
+    [('set', [OA, OB]), ('set', [OA]), ('list', ['X-One', 'X-Two'])],
+    [('str', '*'), ('list', [OB]), ('none', None)],
+]
+EVIL = 'https://evil.test'
+FRAMING_ORIGINS = [(EVIL, OA), (OA, EVIL), (OA, OA), (OA, OB), (OB, EVIL, OA), (OA,)]
+FRAMING_SHAPES = [
+    ('GET', None, None),
+    ('OPTIONS', 'GET', None),
+    ('OPTIONS', ('GET', 'POST'), None),                     # request-method field repeated
+    ('OPTIONS', 'GET', ('X-A', 'X-B')),                     # list-valued field sent as two lines
+    ('OPTIONS', ('', 'GET'), None),
+    ('OPTIONS', None, ('X-A', 'X-B')),                      # no request-method: not a preflight
+]
+# CGI / wsgiref style gateways copy process variables into every environ; only HTTP_* keys are request headers
+ENV_EXTRAS = [
+    {'ORIGIN': OA}, {'ORIGIN': EVIL}, {'ORIGIN': OB, 'Origin': OA, 'origin': OA},
+    {'ACCESS_CONTROL_REQUEST_METHOD': 'GET'}, {'ACCESS_CONTROL_REQUEST_HEADERS': 'X-A'},
+    {'ORIGIN': OA, 'ACCESS_CONTROL_REQUEST_METHOD': 'GET', 'ACCESS_CONTROL_REQUEST_HEADERS': 'X-A'},
+    {'HTTP_X_ORIGIN': OA, 'X_HTTP_ORIGIN': OA, 'REMOTE_ORIGIN': OA},
+]
+
+
+def history_framing(rec, bench, desc):
+    """Repeated header field lines (both frameworks) and non-header environ variables named like the headers the
+    policy reads (WSGI).  desc: config (forms)."""
+    cfg = tuple(_norm_spec(x) for x in desc['config'])
+    policy = make_policy(cfg)
+    try:
+        cors = make_cors(cfg)
+        apps = {fw: build_app(fw, 'list', cors, bench.static_dir) for fw in ('wsgi', 'asgi')}
+    except Exception as e:  # noqa
+        rec.violation('legal-configuration-rejected', {'history': desc, 'exc': repr(e)})
+        return
+    targets = hist_targets() + [t for t in all_targets() if t.name == 'plan0']
+    extra = {'history': desc}
+    for fw in ('wsgi', 'asgi'):
+        for t in targets:
+            spec = t.plan.spec() if t.plan else None
+            for shape in FRAMING_SHAPES:
+                for origin in FRAMING_ORIGINS + [OA, None]:
+                    if not isinstance(origin, tuple) and not any(isinstance(x, tuple) for x in shape):
+                        continue
+                    check_exchange(rec, bench, fw, 'history:framing', apps[fw], cfg, policy, t, shape, origin,
+                                   plan_spec=spec, base_k='none', extra=extra)
+                    rec.count('hist.exchanges')
+                    rec.count('hist.framing.repeated-fields.' + fw)
+                    if isinstance(origin, tuple) and len(origin) > 1:
+                        rec.count('hist.framing.repeated-origin.' + fw)
+                        if policy.allowed(origin[-1]) and not policy.allowed(fold(origin)):
+                            rec.count('hist.framing.last-origin-allowed-combined-not.' + fw)
+                        if policy.allowed(origin[0]) and not policy.allowed(fold(origin)):
+                            rec.count('hist.framing.first-origin-allowed-combined-not.' + fw)
+    for t in targets:
+        spec = t.plan.spec() if t.plan else None
+        for shape in (SHAPES[0], SHAPES[5], SHAPES[7]):
+            for origin in (None, OA, EVIL):
+                for env_extra in ENV_EXTRAS:
+                    check_exchange(rec, bench, 'wsgi', 'history:framing', apps['wsgi'], cfg, policy, t, shape, origin,
+                                   plan_spec=spec, base_k='none', extra=extra, env_extra=env_extra)
+                    rec.count('hist.exchanges')
+                    rec.count('hist.framing.environ-extras')
+                    if origin is None and any(policy.allowed(v) for v in env_extra.values()):
+                        rec.count('hist.framing.no-origin-header-but-allowed-variable')
+
+
 HISTORY_KINDS = {'reconfig': history_reconfig, 'alias': history_alias, 'guard': history_guard,
-                 'overlap': history_overlap, 'narrow': history_narrow}
+                 'overlap': history_overlap, 'narrow': history_narrow,
+                 'framing': history_framing}
 
 
 def history_descs():
@@ -1206,6 +1296,9 @@ def history_descs():
         out.append({'kind': 'narrow', 'config': cfg, 'rule': 'path'})
         out.append({'kind': 'narrow', 'config': cfg, 'rule': 'preflight'})
         out.append({'kind': 'narrow', 'config': cfg, 'rule': 'origin', 'suspend': [[OB], [OB, OA], []]})
+    # -- repeated header field lines / non-header environ variables
+    for cfg in FRAMING_CONFIGS:
+        out.append({'kind': 'framing', 'config': cfg})
     # -- two overlapping requests in one threaded-style WSGI app
     for ci, cfg in enumerate(OVERLAP_CONFIGS):
         for a in range(len(OVERLAP_REQUESTS)):
@@ -1379,6 +1472,9 @@ def run(rec):
         'a CORSMiddleware subclass that overrides the documented process_response() and calls super() only when its own '
         'rule agrees narrows the configuration: what the rule refuses must get no cross-origin header, WSGI and ASGI; '
         'a subclass instance next to cors_enable=True is a second policy like a plain instance',
+        'several header field lines with one name are the one field whose value is their comma-joined list (RFC 9110 '
+        '5.3, what WSGI servers and the ASGI request do): an Origin sent as two lines is that combined string; WSGI '
+        'environ keys without the HTTP_ prefix (other than CONTENT_TYPE/CONTENT_LENGTH) are not request headers',
         'overlapping requests are modelled in one thread through a custom response_type whose header operations are '
         'the preemption points (B runs completely while A is paused); WSGI only - the ASGI CORS hook has no await',
         '"the configuration" = the value of the public attributes allow_origins / allow_credentials / expose_headers at '
@@ -1434,6 +1530,12 @@ def run(rec):
         ('hist.guard', 36), ('hist.guard.refused', 72), ('hist.guard.reprepared', 36),
         ('hist.narrow', 9), ('hist.narrow.steps', 15), ('hist.narrow.refused-though-configured.wsgi', 100),
         ('hist.narrow.refused-though-configured.asgi', 100),
+        ('hist.framing', 5), ('hist.framing.environ-extras', 1000),
+        ('hist.framing.no-origin-header-but-allowed-variable', 200),
+        ('hist.framing.repeated-origin.wsgi', 400), ('hist.framing.repeated-origin.asgi', 400),
+        ('hist.framing.last-origin-allowed-combined-not.wsgi', 50),
+        ('hist.framing.last-origin-allowed-combined-not.asgi', 50),
+        ('hist.framing.first-origin-allowed-combined-not.asgi', 50),
         ('hist.overlap', 100), ('hist.overlap.interleavings', 500), ('hist.overlap.two-preflights', 150),
         ('hist.overlap.judged-a', 500), ('hist.overlap.judged-b', 500),
     ] + [('style.' + st, 5) for st in STYLES] + [('tgt.%sgate-%s' % (st, g), 30) for st in 'qr' for g in GATES] + \
